@@ -529,12 +529,14 @@ func (m *Machine) callBuiltin(caller *frame, fn *ssa.Builtin, args []Value) Valu
 		return nil
 
 	case "delete":
+		m.raceMap(caller, args[0].(*Map), true)
 		m.mapDelete(args[0].(*Map), args[1])
 		return nil
 
 	case "clear":
 		switch x := args[0].(type) {
 		case *Map:
+			m.raceMap(caller, x, true)
 			m.mapClear(x)
 		case []Value:
 			et := fn.Type().(*types.Signature).Params().At(0).Type().Underlying().(*types.Slice).Elem()
